@@ -180,7 +180,9 @@ class BodyMixin:
         ctype = self.content_type
         if not ctype.startswith('multipart/'):
             if ctype.startswith('application/json'):
-                post.update(self.json)
+                json_value = self.json
+                if isinstance(json_value, dict):   # only a JSON object has fields
+                    post.update(json_value)
             else:
                 parse_qsl(
                     touni(self._get_body_string(), 'latin1'),
